@@ -513,8 +513,14 @@ def extract_spans(trace: dict, ts: TableSet, frames: "FrameTab") -> list[dict]:
     for ev in trace["ev"]:
         e = ev["e"]
         if e == "CALL":
-            cur = {"api": ev["api"], "resp": [], "args": ev.get("args", []), "ci": ev.get("ci", -1)}
+            cur = {"api": ev["api"], "resp": [], "args": ev.get("args", []), "ci": ev.get("ci", -1), "short": []}
             pending = None
+        elif e == "SHORT" and cur is not None:
+            # the decoder asked an accepted answer for bytes it does not hold
+            a = ev["first"] + ev["pos"] // 2 if ev.get("first", -1) >= 0 and ev["pos"] >= 0 else max(ev["pos"], 0)
+            t = {"a": a, "n": ev["want"], "g": ev["got"]}
+            if t not in cur["short"] and len(cur["short"]) < 8:
+                cur["short"].append(t)
         elif e == "SEND" and cur is not None:
             if pending is not None:
                 f = "aa55" if pending[:4] == b"\xaa\x55\xc0\x7f" else fr
@@ -546,7 +552,8 @@ def extract_spans(trace: dict, ts: TableSet, frames: "FrameTab") -> list[dict]:
                   "modbus": fam in ("ET", "DT"), "prevFailed": False, "ro": api in READ_ONLY_APIS,
                   "guard": bool(ann.get("guard", False)), "documented": bool(ann.get("documented", False)),
                   "bulk": ABSENT, "unknown": "nknown" in ev.get("msg", ""), "failed": bool(ev.get("failed", False)),
-                  "decode": bool(ann.get("decode", True)), "_ann": ann, "wval": ABSENT, "rb": ABSENT, "bulkmiss": False}
+                  "decode": bool(ann.get("decode", True)), "_ann": ann, "wval": ABSENT, "rb": ABSENT, "bulkmiss": False,
+                  "short": cur["short"]}
             if api in ("read_runtime_data", "read_settings_data"):
                 kind = "runtime" if api == "read_runtime_data" else "settings"
                 sp["api"] = kind
@@ -661,6 +668,8 @@ def run_span_program(prog: dict) -> dict:
     for ev in tr["ev"]:
         if ev["e"] in ("CALL", "SEND", "DLV"):
             out.append({k: ev[k] for k in ("e", "api", "args", "data", "ci") if k in ev})
+        elif ev["e"] == "SHORT":
+            out.append(dict(ev))
         elif ev["e"] == "RET":
             d = {"e": "RET", "api": ev["api"], "ok": ev.get("ok", False), "exc": ev.get("exc", "")}
             if "table" in ev:
@@ -685,6 +694,8 @@ def run_program_values(prog: dict) -> dict:
     for ev in tr["ev"]:
         if ev["e"] in ("CALL", "SEND", "DLV"):
             out.append({k: ev[k] for k in ("e", "api", "args", "data", "ci") if k in ev})
+        elif ev["e"] == "SHORT":
+            out.append(dict(ev))
         elif ev["e"] == "RET":
             d = {"e": "RET", "api": ev["api"], "ok": ev.get("ok", False), "exc": ev.get("exc", ""),
                  "msg": ev.get("msg", ""), "failed": ev.get("failed", False)}
